@@ -15,7 +15,7 @@ import typing as ty
 
 from harness import core
 from harness.engines import jobproto as jp
-from harness.extractors.job_skeleton import extract_job_skeleton
+from harness.extractors.job_skeleton import extract_job_skeleton, extract_shell_exec
 from harness.props.C35 import _mk, _set_body, inproc
 
 META = {
@@ -53,6 +53,10 @@ OBLIGATIONS = [
         "C13_success_reported_async",
         "C13_regression_D61",
         "C13_regression_D60",
+        "C13_shell_rc",
+        "C13_shell_not_cached",
+        "nativeRcTest_failsOnNonzero",
+        "RcTest.failsOnNonzero_sound",
         "C13_binding_full",
         "C13_binding_missing",
         "C13_binding_regression_D9",
@@ -65,22 +69,35 @@ OBLIGATIONS = [
     )
 ]
 LEAN_TARGETS = ["PydraModel.Props.C13", "Drivers.JobProto"]
-MODEL_TARGETS = ["PydraModel.JobProto.Model", "PydraModel.JobProto.Bind", "PydraModel.Gen.JobSkeleton", "PydraModel.DriverUtil",
+MODEL_TARGETS = ["PydraModel.JobProto.Model", "PydraModel.JobProto.Bind", "PydraModel.JobProto.ShellExec", "PydraModel.Gen.JobSkeleton", "PydraModel.DriverUtil",
                  "Drivers.JobProto"]  # fmt: skip
-EXTRACTORS = [extract_job_skeleton]
+EXTRACTORS = [extract_job_skeleton, extract_shell_exec]
 
 RECORDED = "task body told to fail"
 
 # ------------------------------------------------------------------------------------------------------------------
 # histories
 
-BODIES = {"py": ["ok", "fail", "sysexit"], "sh": ["ok", "fail"], "wf": ["ok", "fail"]}
+# shell bodies: ordinary exit statuses, death by signal (negative return code), a python child that aborts, the
+# one-byte wrap of the exit status; "+out": the declared output file is written before the command dies
+SH_BODIES = ["ok", "fail", "sig:SEGV", "sig:KILL", "sig:ABRT", "abortpy", "exit:255", "exit:1", "exit:256"]
+BODIES = {"py": ["ok", "fail", "sysexit"], "sh": SH_BODIES, "shout": SH_BODIES + ["sig:SEGV+out", "sig:KILL+out", "abortpy+out"],
+          "wf": ["ok", "fail"]}  # fmt: skip
+SHELL = ("sh", "shout")
+
+
+def fails(task: str, body: str) -> bool:
+    """does this body make the task fail?  (the property's notion: a shell command fails when its return code is
+    not 0 — killed by a signal included; decided from what the OS reports, not from what pydra does)"""
+    if task in SHELL:
+        return jp.body_return_code(body) != 0
+    return body != "ok"
 
 
 def gen_history(rng, task: str, worker: str, n: int) -> dict:
     steps = []
     for k in range(n):
-        body = rng.choice(BODIES[task]) if k else rng.choice([b for b in BODIES[task] if b != "ok"])
+        body = rng.choice(BODIES[task]) if k else rng.choice([b for b in BODIES[task] if fails(task, b)])
         steps.append({"body": body, "rerun": rng.random() < 0.25})
     # end with the corrected variant and a cached resubmission
     steps += [{"body": "ok", "rerun": False}, {"body": "ok", "rerun": False}]
@@ -125,7 +142,7 @@ def run_history(ctx, case, zy) -> list[dict]:
             {
                 "outcome": rep["outcome"],
                 "outputs": rep.get("outputs"),
-                "recorded_error_shown": RECORDED in msg or "exit code" in msg.lower() or "boom" in msg,
+                "recorded_error_shown": RECORDED in msg or "Error running" in msg or "boom" in msg,
                 "not_retrieved": "NOT RETRIEVED" in msg,
                 "execs": o["execs"],
                 "result": o["result"],
@@ -142,8 +159,12 @@ def history_query(case) -> dict:
     debug = case["worker"] == "debug"
     steps = []
     for st in case["steps"]:
-        bf = {"ok": None, "fail": False, "sysexit": True}[st["body"]]
-        steps.append({"env": {"rerun": st["rerun"], "prov": False, "bodyFails": bf}, "fault": {"kind": "none"},
+        env = {"rerun": st["rerun"], "prov": False, "bodyFails": None}
+        if case["task"] in SHELL:
+            env["shellRc"] = jp.body_return_code(st["body"])  # the model applies the regenerated test of Native.execute
+        else:
+            env["bodyFails"] = {"ok": None, "fail": False, "sysexit": True}[st["body"]]
+        steps.append({"env": env, "fault": {"kind": "none"},
                       "submit": {"raiseErrors": debug, "inProcess": debug}, "then": "next" if debug else "death"})  # fmt: skip
     return {"op": "history", "prog": "run", "core": dict(jp.FRESH_CORE), "errInit": "absent", "jobInit": "absent", "steps": steps}
 
@@ -191,7 +212,7 @@ def history_ok(case, hs) -> tuple[bool, str]:
             return False, f"expected the body to run (result was {prev_result}): executions {prev_execs} -> {o['execs']}"
         if not executes and o["execs"] != prev_execs:
             return False, "a cached good result was not served"
-        if executes and st["body"] != "ok":
+        if executes and fails(case["task"], st["body"]):
             if o["outcome"] == "ok":
                 return False, "a failing submission was reported as success"
             if o["result"] == "ok" or o["result"] == "ok_noout":
@@ -346,16 +367,29 @@ def run_all(ctx, hist, binds):
         if zy is not None:
             zy.close()
     bobs = [run_bind(b) for b in binds]
-    ans = ctx.driver("JobProto", [history_query(h) for h in hist] + [bind_query(b) for b in binds])
+    rcs = sorted({jp.body_return_code(st["body"]) for h in hist if h["task"] in SHELL for st in h["steps"]})
+    ans = ctx.driver("JobProto", [history_query(h) for h in hist] + [bind_query(b) for b in binds] + [{"op": "shell_rc", "rc": rc} for rc in rcs])
+    if ans is not None and rcs:
+        # the regenerated test of Native.execute, evaluated by Lean and by the Python mirror of `RcTest.eval`
+        from harness.extractors import job_skeleton as js
+
+        try:
+            t = js.shell_exec()["native_test"]
+            for rc, a in zip(rcs, ans[len(hist) + len(binds) :]):
+                ctx.count(f"shell-rc:{'neg' if rc < 0 else 'zero' if rc == 0 else 'pos'}")
+                if a.get("raises") != js.rc_test_eval(t, rc):
+                    ctx.tie_broken.append({"kind": "rc-test-mirror", "rc": rc, "driver": a, "python": js.rc_test_eval(t, rc)})
+        except Exception as e:
+            ctx.tie_broken.append({"kind": "extraction", "extractor": "shell_exec", "detail": f"{core.exc_tag(e)}: {e}"})
     for k, (h, hs) in enumerate(zip(hist, obs)):
         ok, why = history_ok(h, hs)
         model = None
-        if ans is not None and h["task"] in ("py", "sh"):
+        if ans is not None and h["task"] in ("py", "sh", "shout"):
             model = {"error": ans[k]["error"]} if "error" in ans[k] else model_view(ans[k])
         ctx.count(f"history:{h['task']}/{h['worker']}")
         for st in h["steps"]:
             ctx.count(f"step:{st['body']}{'/rerun' if st['rerun'] else ''}")
-        ctx.judge(h, impl_view(h, hs) if h["task"] in ("py", "sh") else [classify(o, h["worker"] == "debug") for o in hs], model, ok,
+        ctx.judge(h, impl_view(h, hs) if h["task"] in ("py", "sh", "shout") else [classify(o, h["worker"] == "debug") for o in hs], model, ok,
                   what=why or "history of failing / corrected submissions", nontrivial=len(h["steps"]) >= 2)  # fmt: skip
     for k, (b, r) in enumerate(zip(binds, bobs)):
         ok, why = bind_ok(b, r)
@@ -366,9 +400,10 @@ def run_all(ctx, hist, binds):
 
 def histories(ctx, big: bool):
     hs = list(CORPUS)
-    plan = [("py", "debug", 5), ("sh", "debug", 2), ("wf", "debug", 1), ("py", "cf", 1)]
+    plan = [("py", "debug", 5), ("sh", "debug", 5), ("shout", "debug", 5), ("wf", "debug", 1), ("py", "cf", 1)]
     if big:
-        plan = [("py", "debug", 40), ("sh", "debug", 12), ("wf", "debug", 8), ("py", "cf", 6), ("wf", "cf", 4), ("sh", "cf", 3)]
+        plan = [("py", "debug", 40), ("sh", "debug", 40), ("shout", "debug", 40), ("wf", "debug", 8), ("py", "cf", 6),
+                ("wf", "cf", 4), ("sh", "cf", 4), ("shout", "cf", 4)]  # fmt: skip
     for task, worker, n in plan:
         for _ in range(n):
             hs.append(gen_history(ctx.rng, task, worker, ctx.rng.randint(1, 3)))
